@@ -208,7 +208,6 @@ impl IntoLower for ast::Identifier {
             }
             ast::Symbol::Output(index) => Ok(ir::Expression::Number(*index as i128)),
             _ => {
-                dbg!(&self);
                 todo!();
             }
         }
